@@ -46,7 +46,10 @@ def source(draw, idx):
         twin['customs'] = {c: draw(st.sampled_from(['WIRE', 'ACH-OUT', 'alice', 'bob', ''])) for c in twin['customs']}
         twin['loc'] = draw(st.sampled_from(['', 'WA', 'NY', base['loc']]))
         rows.insert(draw(st.integers(0, len(rows))), twin)
-    return {'layout': lay, 'rows': rows, 'path_style': draw(st.sampled_from(['plain', 'plain', 'plain', 'dot_slash', 'absolute', 'hidden_dir', 'parent'])), 'state': draw(st.sampled_from(['ok', 'ok', 'ok', 'ok', 'ok', 'ok', 'missing', 'garbage', 'directory', 'late_garbage', 'unclosed_quote']))}
+    state = draw(st.sampled_from(['ok', 'ok', 'ok', 'ok', 'ok', 'ok', 'missing', 'garbage', 'directory', 'late_garbage', 'unclosed_quote']))
+    if state == 'unclosed_quote' and lay.get('dialect') != 'comma':
+        state = 'ok'  # only the csv-module reader trips over an unclosed quote; a regex-split file just carries one more junk line
+    return {'layout': lay, 'rows': rows, 'state': state, 'path_style': draw(st.sampled_from(['plain', 'plain', 'plain', 'dot_slash', 'absolute', 'hidden_dir', 'parent']))}
 
 
 @st.composite
